@@ -215,6 +215,10 @@ func runC13(t *simrt.Tape, o Opts) Outcome {
 			dialect := strings.TrimPrefix(impl, "sql-")
 			db := fakes.NewSQLDB(s, dialect)
 			db.Faults = faulty
+			if faulty {
+				// a server-side error, a cut connection, or a timeout on the wire
+				db.ErrKind = t.Choose(3, "sql.errkind")
+			}
 			var h *sql.DB = db.Open()
 			closeFn = func() { h.Close() }
 			switch dialect {
